@@ -27,6 +27,7 @@ type Behaviour struct {
 	// CloseOnPieceDone: close the connection right after the last data byte of some piece has been sent
 	// (the client then handles the hash result of that piece with the peer already gone).
 	CloseOnPieceDone bool `json:"close_on_piece_done,omitempty"`
+	DelayPerBlockMs  int  `json:"delay_per_block_ms,omitempty"` // honest but slow
 }
 
 // Honest reports whether the behaviour never sends wrong data.
@@ -66,6 +67,9 @@ func Serve(p *Peer, b Behaviour, F []byte, pl int, info ...[]byte) *Server {
 	go s.run()
 	return s
 }
+
+// Done is closed when the serving loop has ended (connection closed by either side).
+func (s *Server) Done() <-chan struct{} { return s.done }
 
 // Snapshot returns counters.
 func (s *Server) Snapshot() (served, requests, outstanding int, unchoked, interested bool, lastReq time.Time) {
@@ -170,6 +174,9 @@ func (s *Server) run() {
 			}
 			if s.B.StallAfter > 0 && s.Served == s.B.StallAfter {
 				time.Sleep(time.Duration(s.B.StallMs) * time.Millisecond)
+			}
+			if s.B.DelayPerBlockMs > 0 {
+				time.Sleep(time.Duration(s.B.DelayPerBlockMs) * time.Millisecond)
 			}
 			data := append([]byte(nil), s.F[idx*s.PL+beg:idx*s.PL+beg+ln]...)
 			corrupt := s.B.CorruptAll
